@@ -80,6 +80,47 @@ func structField(c *core.Ctx, rel, typ, field string) *types.Var {
 	return nil
 }
 
+// mutexField finds the mutex of a struct: the field of that name, or – when it was renamed – the only sync.Mutex /
+// sync.RWMutex field of the struct, or among several the one whose name shares the longest prefix with hint (≥ 4 chars).
+func mutexField(c *core.Ctx, rel, typ, name, hint string) *types.Var {
+	if f := structField(c, rel, typ, name); f != nil {
+		return f
+	}
+	p := c.Pkg(rel)
+	if p == nil {
+		return nil
+	}
+	o := p.Types.Scope().Lookup(typ)
+	if o == nil {
+		return nil
+	}
+	st, ok := o.Type().Underlying().(*types.Struct)
+	if !ok {
+		return nil
+	}
+	var mus []*types.Var
+	for i := 0; i < st.NumFields(); i++ {
+		if t := st.Field(i).Type(); core.IsNamed(t, "sync", "Mutex") || core.IsNamed(t, "sync", "RWMutex") {
+			mus = append(mus, st.Field(i))
+		}
+	}
+	if len(mus) == 1 {
+		return mus[0]
+	}
+	var best *types.Var
+	bestN := 3
+	for _, m := range mus {
+		n := 0
+		for n < len(m.Name()) && n < len(hint) && m.Name()[n] == hint[n] {
+			n++
+		}
+		if n > bestN {
+			best, bestN = m, n
+		}
+	}
+	return best
+}
+
 func isAtomicU64(t types.Type) bool {
 	return core.IsNamed(t, "sync/atomic", "Uint64")
 }
@@ -147,7 +188,7 @@ func runC10(c *core.Ctx) {
 			continue // package not built in this configuration (e.g. wazevo on unsupported platforms)
 		}
 		f := structField(c, e.rel, e.typ, e.field)
-		mu := structField(c, e.muRel, e.muTyp, e.mu)
+		mu := mutexField(c, e.muRel, e.muTyp, e.mu, e.field)
 		if f == nil || mu == nil {
 			c.Undecided("R10.1", "guard-table:"+e.typ+"."+e.field, 0, "guarded field or its mutex not found (renamed?): update the table in checker/props/c10.go")
 			continue
@@ -742,14 +783,33 @@ func checkRegistry(c *core.Ctx) {
 						// same function must store nil to prev and next of the deleted module
 						clearedPrev, clearedNext := false, false
 						// the function itself and the helpers it calls with the removed instance (extracted unlink step)
+						// … and, when the release of the name is itself an extracted step, the function that calls it with the
+						// removed instance and the sibling steps that one calls
 						scope := []*ssa.Function{fn}
-						for _, bb := range fn.Blocks {
-							for _, ii := range bb.Instrs {
-								if call, ok := ii.(*ssa.Call); ok {
-									if sc := call.Common().StaticCallee(); sc != nil && sc.Blocks != nil && sc.Pkg == fn.Pkg {
+						roots := []*ssa.Function{fn}
+						for _, cand := range moduleFns(c, "internal/wasm") {
+							for _, bb := range cand.Blocks {
+								for _, ii := range bb.Instrs {
+									if call, ok := ii.(*ssa.Call); ok && call.Common().StaticCallee() == fn && cand != fn {
 										for _, a := range call.Common().Args {
 											if _, isParam := a.(*ssa.Parameter); isParam && core.IsNamed(a.Type(), core.Module+"/internal/wasm", "ModuleInstance") {
-												scope = append(scope, sc)
+												roots = append(roots, cand)
+												scope = append(scope, cand)
+											}
+										}
+									}
+								}
+							}
+						}
+						for _, root := range roots {
+							for _, bb := range root.Blocks {
+								for _, ii := range bb.Instrs {
+									if call, ok := ii.(*ssa.Call); ok {
+										if sc := call.Common().StaticCallee(); sc != nil && sc.Blocks != nil && sc.Pkg == fn.Pkg {
+											for _, a := range call.Common().Args {
+												if _, isParam := a.(*ssa.Parameter); isParam && core.IsNamed(a.Type(), core.Module+"/internal/wasm", "ModuleInstance") {
+													scope = append(scope, sc)
+												}
 											}
 										}
 									}
